@@ -37,7 +37,18 @@ pub enum ChildResult {
     HarnessError(String),
 }
 
+/// One run in a fresh process. A child that the 60 s wall-clock watchdog had to kill is run
+/// once more: a run is a pure function of its spec, so a second attempt that completes shows
+/// that the first one was starved by the machine (a frozen sandbox, a build next door), while
+/// a run that really hangs is killed again and reported as a harness error.
 pub fn run_child(spec: &Spec) -> ChildResult {
+    match run_child_once(spec) {
+        ChildResult::HarnessError(e) if e.contains("killed by signal") => run_child_once(spec),
+        r => r,
+    }
+}
+
+fn run_child_once(spec: &Spec) -> ChildResult {
     // the running image itself, even if the file on disk was rebuilt meanwhile
     let mut cmd = Command::new("/proc/self/exe");
     cmd.env("SIMH_CHILD", "1").env_remove("RUST_LOG").stdin(Stdio::piped()).stdout(Stdio::piped());
